@@ -187,6 +187,10 @@ def make_plan(seed: int, tier: str, index: int) -> dict[str, Any]:
             schedule = {"mode": "pct", "seed": s.getrandbits(32), "d": s.choice([1, 2, 3]),
                         "est_steps": max(50, total_ops * s.choice([20, 60, 150]))}
     if schedule["mode"] != "sequential" and s.random() < 0.2:
+        # write-biased schedule: switch right after heap writes, then let the other thread run long
+        schedule = {"mode": "writes", "seed": s.getrandbits(32), "p": s.choice([0.1, 0.3, 0.6]),
+                    "hold": s.choice([20, 200, 1000, 4000])}
+    elif schedule["mode"] != "sequential" and s.random() < 0.2:
         # knob: pre-empt between bytecodes (sys.monitoring) instead of between source lines
         schedule["granularity"] = "opcode"
         if "est_steps" in schedule:
